@@ -303,14 +303,26 @@ def explore(fn, on_path, timeout_ms=30000, max_paths=200000, deadline=None, seed
 # proxies
 
 
+_INTVALS = {}
+
+
+def ival_z3(v):
+    r = _INTVALS.get(v)
+    if r is None:
+        r = z3.IntVal(v)
+        if -4096 <= v <= 65536:
+            _INTVALS[v] = r
+    return r
+
+
 def tz(x):
     """python/proxy integer -> z3 term"""
     if isinstance(x, SInt):
         return x.e
     if isinstance(x, bool):
-        return z3.IntVal(int(x))
+        return ival_z3(int(x))
     if isinstance(x, int):
-        return z3.IntVal(int(x))
+        return ival_z3(int(x))
     if isinstance(x, SBool):
         return z3.If(x.e, z3.IntVal(1), z3.IntVal(0))
     if z3.is_expr(x):
